@@ -86,6 +86,16 @@ func vpuErr(err error) string {
 		return ""
 	}
 	s := err.Error()
+	// never "" for a non-nil error: btcd reports an invalid taproot
+	// key-spend signature as txscript.Error{ErrTaprootSigInvalid, ""}, whose
+	// Error() text is EMPTY - as a string it would read "accepted"
+	var se txscript.Error
+	if errors.As(err, &se) {
+		s = se.ErrorCode.String() + ": " + se.Description
+	}
+	if s == "" {
+		s = fmt.Sprintf("error of type %T with an empty message", err)
+	}
 	if len(s) > 160 {
 		s = s[:160]
 	}
